@@ -46,7 +46,8 @@ impl World {
         }
     }
     pub fn graveyard(&self) -> Vec<Element> {
-        let l: HashSet<Element> = live(&self.m).into_iter().collect();
+        // an element that was moved into the other model is alive there, not removed
+        let l: HashSet<Element> = live(&self.m).into_iter().chain(live(&self.other)).collect();
         self.held.iter().filter(|e| !l.contains(e)).cloned().collect()
     }
 }
@@ -75,10 +76,14 @@ fn other_model() -> AutosarModel {
     let c = els.create_named_sub_element(ElementName::CanCluster, "c").unwrap();
     let fe = s.create_sub_element(ElementName::FibexElements).unwrap();
     mk_ref(&fe, Some(&c), None, EnumItem::CanCluster);
+    // names that are string prefixes of each other (a1 / a10), and that collide with names of the live seeds when the
+    // ELEMENTS container is moved next to a sub-package a1
+    els.create_named_sub_element(ElementName::CanCluster, "a1").unwrap();
+    els.create_named_sub_element(ElementName::CanCluster, "a10").unwrap();
     o
 }
 
-pub const SEEDS: [&str; 6] = ["refs", "nested", "twofile", "lenient", "empty", "lastfile"];
+pub const SEEDS: [&str; 7] = ["refs", "nested", "twofile", "samever", "lenient", "empty", "lastfile"];
 
 pub fn seed(name: &str) -> World {
     let m = AutosarModel::new();
@@ -151,6 +156,22 @@ pub fn seed(name: &str) -> World {
             mk_ref(&fe, Some(&c), None, EnumItem::CanCluster);
             b.create_sub_element(ElementName::Elements).unwrap();
         }
+        "samever" => {
+            // two files of the same version: elements restricted to different files can be moved below each other
+            let fx = m.create_file("x.arxml", V50).unwrap();
+            let fy = m.create_file("y.arxml", V50).unwrap();
+            let pkgs = m.root_element().create_sub_element(ElementName::ArPackages).unwrap();
+            let a = pkgs.create_named_sub_element(ElementName::ArPackage, "a").unwrap();
+            let b = pkgs.create_named_sub_element(ElementName::ArPackage, "a1").unwrap();
+            let els = a.create_sub_element(ElementName::Elements).unwrap();
+            let s = els.create_named_sub_element(ElementName::System, "s").unwrap();
+            let c = els.create_named_sub_element(ElementName::CanCluster, "c").unwrap();
+            b.remove_from_file(&fx).unwrap(); // a1 only in y
+            s.remove_from_file(&fy).unwrap(); // s only in x
+            let fe = s.create_sub_element(ElementName::FibexElements).unwrap();
+            mk_ref(&fe, Some(&c), None, EnumItem::CanCluster);
+            b.create_sub_element(ElementName::Elements).unwrap();
+        }
         "lenient" => {
             // 4.0.1 file with a child that only exists in later versions and a reference without DEST
             let doc = format!(
@@ -205,6 +226,9 @@ pub enum Op {
     Remove(usize, Src),
     RemoveKind(usize, ElementNameOrd),
     Rename(usize, &'static str),
+    /// foreign.move_element_here(live) / foreign.create_copied_sub_element(live): destination index in the other model
+    MoveOut(usize, usize),
+    CopyOut(usize, usize),
     SetCdata(usize, String),
     RemoveCdata(usize),
     InsertText(usize, usize),
@@ -255,6 +279,8 @@ pub fn op_kind(op: &Op) -> &'static str {
         Op::Remove(..) => "remove_sub_element",
         Op::RemoveKind(..) => "remove_sub_element_kind",
         Op::Rename(..) => "set_item_name",
+        Op::MoveOut(..) => "move_element_here(into-other-model)",
+        Op::CopyOut(..) => "create_copied_sub_element(into-other-model)",
         Op::SetCdata(..) => "set_character_data",
         Op::RemoveCdata(..) => "remove_character_data",
         Op::InsertText(..) => "insert_character_content_item",
@@ -301,6 +327,7 @@ pub fn load_docs() -> Vec<(&'static str, String)> {
         ("lenient-only", format!("{}<AR-PACKAGES>{}</AR-PACKAGES></AUTOSAR>", h(V50), pk("z7", "<ELEMENTS><CAN-CLUSTER UNKNOWN=\"1\"><SHORT-NAME>c</SHORT-NAME></CAN-CLUSTER></ELEMENTS>"))),
         ("other-version", format!("{}<AR-PACKAGES>{}</AR-PACKAGES></AUTOSAR>", h(V49), pk("z6", "<ELEMENTS/>"))),
         ("elements-only-in-new-file", format!("{}<AR-PACKAGES>{}{}</AR-PACKAGES></AUTOSAR>", h(V50), pk("a10", "<ELEMENTS><CAN-CLUSTER><SHORT-NAME>k</SHORT-NAME></CAN-CLUSTER></ELEMENTS>"), pk("a1", "<ELEMENTS><CAN-CLUSTER><SHORT-NAME>k</SHORT-NAME></CAN-CLUSTER></ELEMENTS><AR-PACKAGES/>"))),
+        ("same-reference-texts", format!("{}<AR-PACKAGES>{}</AR-PACKAGES></AUTOSAR>", h(V50), pk("z4", "<ELEMENTS><SYSTEM><SHORT-NAME>q</SHORT-NAME><FIBEX-ELEMENTS><FIBEX-ELEMENT-REF-CONDITIONAL><FIBEX-ELEMENT-REF DEST=\"CAN-CLUSTER\">/a/c</FIBEX-ELEMENT-REF></FIBEX-ELEMENT-REF-CONDITIONAL><FIBEX-ELEMENT-REF-CONDITIONAL><FIBEX-ELEMENT-REF DEST=\"CAN-CLUSTER\">/a/a1/c</FIBEX-ELEMENT-REF></FIBEX-ELEMENT-REF-CONDITIONAL><FIBEX-ELEMENT-REF-CONDITIONAL><FIBEX-ELEMENT-REF DEST=\"CAN-CLUSTER\">/a/a1</FIBEX-ELEMENT-REF></FIBEX-ELEMENT-REF-CONDITIONAL></FIBEX-ELEMENTS></SYSTEM></ELEMENTS>"))),
         ("late-failure", format!("{}<AR-PACKAGES>{}{}</AR-PACKAGES></AUTOSAR>", h(V50), pk("z5", "<ELEMENTS><SYSTEM><SHORT-NAME>ok</SHORT-NAME></SYSTEM></ELEMENTS>"), pk("a", "<ELEMENTS><SYSTEM><SHORT-NAME>c</SHORT-NAME></SYSTEM></ELEMENTS>"))),
     ]
 }
@@ -449,6 +476,21 @@ pub fn ops_for(w: &World, profile: Profile) -> Vec<Op> {
                 ops.push(Op::Move(i, Src::Foreign(j)));
             }
         }
+        let movable_out = matches!(
+            e.element_name(),
+            ElementName::ArPackage | ElementName::CanCluster | ElementName::System | ElementName::Elements | ElementName::ArPackages | ElementName::FibexElementRefConditional | ElementName::CanClusterConditional | ElementName::FibexElementRef
+        );
+        if (tree || refs) && i > 0 && movable_out {
+            // the other direction: this element into every fitting place of the other model
+            for (fi, fe) in fl.iter().enumerate() {
+                if fe.element_type().find_sub_element(e.element_name(), u32::MAX).is_some() {
+                    ops.push(Op::MoveOut(fi, i));
+                    if all || core {
+                        ops.push(Op::CopyOut(fi, i));
+                    }
+                }
+            }
+        }
         if e.element_name() == ElementName::ShortName && (tree || refs) {
             for item in ["a1", "a10"] {
                 ops.push(Op::SetCdata(i, item.to_string()));
@@ -593,6 +635,8 @@ pub fn apply(w: &mut World, op: &Op) -> Outcome {
             Op::RemoveKind(i, n) => get(*i)?.remove_sub_element_kind(n.0).map(|_| None),
             Op::Rename(i, item) => get(*i)?.set_item_name(item).map(|_| None),
             Op::SetCdata(i, t) => get(*i)?.set_character_data(t.as_str()).map(|_| None),
+            Op::MoveOut(fi, j) => fl.get(*fi)?.move_element_here(&get(*j)?).map(Some),
+            Op::CopyOut(fi, j) => fl.get(*fi)?.create_copied_sub_element(&get(*j)?).map(Some),
             Op::RemoveCdata(i) => get(*i)?.remove_character_data().map(|_| None),
             Op::InsertText(i, p) => get(*i)?.insert_character_content_item("txt", *p).map(|_| None),
             Op::RemoveText(i, p) => get(*i)?.remove_character_content_item(*p).map(|_| None),
@@ -912,7 +956,14 @@ pub fn transition_oracles(w: &World, pre: &PreState, op: &Op, out: &Outcome) -> 
                 let a = snapshot(copy);
                 // expected content: the source, minus what is not permitted in the destination's version
                 let dest_version = copy.min_version().unwrap_or(AutosarVersion::LATEST);
-                let b = match crate::common::specvalid::spec_filter(&snapshot(&srce), srce.element_type(), dest_version) {
+                // judged by the type the element has at the destination in the destination's version
+                let dest_type = copy
+                    .parent()
+                    .ok()
+                    .flatten()
+                    .and_then(|p| p.element_type().find_sub_element(copy.element_name(), dest_version as u32))
+                    .map_or(srce.element_type(), |(t, _)| t);
+                let b = match crate::common::specvalid::spec_filter(&snapshot(&srce), dest_type, dest_version) {
                     Some(b) => b,
                     None => {
                         f.push(fd("C13", "copy|succeeds-although-a-required-attribute-is-not-permitted-in-the-destination-version", ""));
